@@ -176,12 +176,20 @@ package h2
 //@ func (*relay).data
 //@   serves C09 C08
 //@   requires r != nil && !r.flowMu.held && bufsOK(r) && within(r, 1099511627776)
-//@   modifies r.connectionWindowSize, sentConn, outputBuffer.windowSize, outputBuffer.sentS, list.List.gfront, list.List.glen, list.Element.gnext, r.outputBuffers[*], r.flowMu.held
+//@   modifies r.connectionWindowSize, sentConn, outputBuffer.windowSize, outputBuffer.sentS, list.List.gfront, list.List.glen, list.Element.gnext, r.outputBuffers[*], r.flowMu.held, rlN, rlKind, rlSelf, rlID, rlData, rlEnd
 //@   ensures[conn-conservation] r.connectionWindowSize + sentConn == old(r.connectionWindowSize + sentConn)
 //@   ensures[lock-released] !r.flowMu.held
+//@   loop 0 invariant rlN == old(rlN) + 1 && rlKind == 1 && rlSelf == r && rlID == id && rlData == old(data) && rlEnd == streamEnded
 //@   loop 0 invariant !r.flowMu.held && w != nil && allocated(w) && within(r, 1099511627776)
 //@   loop 0 invariant r.connectionWindowSize + sentConn == old(r.connectionWindowSize + sentConn)
 //@   loop 0 invariant r.connectionWindowSize <= old(r.connectionWindowSize) && (r.connectionWindowSize >= 0 || r.connectionWindowSize == old(r.connectionWindowSize))
+//@   ensures[records-call] rlN == old(rlN) + 1 && rlKind == 1 && rlSelf == r && rlID == id && rlData == data && rlEnd == streamEnded
+//@   at entry 0 before set rlN = rlN + 1
+//@   at entry 0 before set rlKind = 1
+//@   at entry 0 before set rlSelf = r
+//@   at entry 0 before set rlID = id
+//@   at entry 0 before set rlData = data
+//@   at entry 0 before set rlEnd = streamEnded
 //@   at call 0 of enqueue before assert[frame-within-max-frame-size] len(nextPayload) <= maxPayloadLength
 //@   at call 0 of enqueue before assert[end-stream-only-on-last] as(f, *queuedDataFrame).endStream == (streamEnded && len(data) == 0)
 
@@ -302,3 +310,129 @@ package h2
 //@   requires r != nil && !r.decoderMu.held && !r.encoderMu.held && r.decoder != nil && r.encoder != nil
 //@   modifies r.decoderMu.held, r.encoderMu.held
 //@   ensures[locks-released] !r.decoderMu.held && !r.encoderMu.held
+
+// ---------------------------------------------------------------------------------------------
+// C08: pass-through adapters and direction selection.
+
+//@ func (*Processors).ForDirection
+//@   serves C08
+//@   requires s != nil
+//@   ensures[selects-by-direction] dir == ClientToServer ==> result == s.cToS
+//@   ensures[selects-by-direction-2] dir == ServerToClient ==> result == s.sToC
+
+// ghost record of what the relay methods are called with (rl*)
+//@ ghost var rlN int
+//@ ghost var rlKind int
+//@ ghost var rlSelf *relay
+//@ ghost var rlID uint32
+//@ ghost var rlEnd bool
+//@ ghost var rlData []byte
+//@ ghost var rlHeaders []hpack.HeaderField
+//@ ghost var rlPrio http2.PriorityParam
+//@ ghost var rlCode http2.ErrCode
+//@ ghost var rlPromise uint32
+
+//@ func (*relayAdapter).Data
+//@   serves C08
+//@   requires r != nil && relayReady(r.relay) && encReady(r.relay) && frameSizeOK(r.relay)
+//@   ensures[forwards-unchanged] rlN == old(rlN) + 1 && rlKind == 1 && rlSelf == r.relay && rlID == r.id && rlData == data && rlEnd == streamEnded
+//@ func (*relayAdapter).Header
+//@   serves C08
+//@   requires r != nil && relayReady(r.relay) && encReady(r.relay) && frameSizeOK(r.relay)
+//@   ensures[forwards-unchanged] rlN == old(rlN) + 1 && rlKind == 2 && rlSelf == r.relay && rlID == r.id && rlHeaders == headers && rlEnd == streamEnded && rlPrio == priority
+//@ func (*relayAdapter).Priority
+//@   serves C08
+//@   requires r != nil && relayReady(r.relay) && encReady(r.relay) && frameSizeOK(r.relay)
+//@   ensures[forwards-unchanged] rlN == old(rlN) + 1 && rlKind == 3 && rlSelf == r.relay && rlID == r.id && rlPrio == priority && result == nil
+//@ func (*relayAdapter).RSTStream
+//@   serves C08
+//@   requires r != nil && relayReady(r.relay) && encReady(r.relay) && frameSizeOK(r.relay)
+//@   ensures[forwards-unchanged] rlN == old(rlN) + 1 && rlKind == 4 && rlSelf == r.relay && rlID == r.id && rlCode == errCode && result == nil
+//@ func (*relayAdapter).PushPromise
+//@   serves C08
+//@   requires r != nil && relayReady(r.relay) && encReady(r.relay) && frameSizeOK(r.relay)
+//@   ensures[forwards-unchanged] rlN == old(rlN) + 1 && rlKind == 5 && rlSelf == r.relay && rlID == r.id && rlPromise == promiseID && rlHeaders == headers
+
+//@ func (*relay).encodeFull
+//@   serves C08
+//@   requires r != nil && !r.encoderMu.held && r.encoder != nil && r.enableDebugLogs != nil
+//@   modifies r.encoderMu.held
+//@   ensures[lock-released] !r.encoderMu.held
+
+//@ pred encReady(r *relay) = !r.encoderMu.held && r.encoder != nil && r.enableDebugLogs != nil
+
+//@ func (*relay).header
+//@   serves C08
+//@   requires relayReady(r) && encReady(r) && frameSizeOK(r)
+//@   at call 0 of enqueueFrame before assert[header-frame-within-max-frame-size] len(chunks) >= 1 && len(chunks[0]) + ite(priority.IsZero(), 0, 5) <= maxPayloadLength
+//@   at call 0 of enqueueFrame before assert[continuations-within-max-frame-size] forall k int :: 1 <= k && k < len(chunks) ==> 1 <= len(chunks[k]) && len(chunks[k]) <= maxPayloadLength
+//@   modifies r.connectionWindowSize, sentConn, outputBuffer.windowSize, outputBuffer.sentS, list.List.gfront, list.List.glen, list.Element.gnext, r.outputBuffers[*], r.flowMu.held, r.encoderMu.held, rlN, rlKind, rlSelf, rlID, rlHeaders, rlEnd, rlPrio
+//@   ensures[records-call] rlN == old(rlN) + 1 && rlKind == 2 && rlSelf == r && rlID == id && rlHeaders == headers && rlEnd == streamEnded && rlPrio == priority
+//@   ensures[lock-released] !r.flowMu.held && !r.encoderMu.held
+//@   at entry 0 before set rlN = rlN + 1
+//@   at entry 0 before set rlKind = 2
+//@   at entry 0 before set rlSelf = r
+//@   at entry 0 before set rlID = id
+//@   at entry 0 before set rlHeaders = headers
+//@   at entry 0 before set rlEnd = streamEnded
+//@   at entry 0 before set rlPrio = priority
+
+//@ func (*relay).pushPromise
+//@   serves C08
+//@   requires relayReady(r) && encReady(r) && frameSizeOK(r)
+//@   at call 0 of enqueueFrame before assert[push-promise-frame-within-max-frame-size] len(chunks) >= 1 && len(chunks[0]) + 4 <= maxPayloadLength
+//@   at call 0 of enqueueFrame before assert[continuations-within-max-frame-size] forall k int :: 1 <= k && k < len(chunks) ==> 1 <= len(chunks[k]) && len(chunks[k]) <= maxPayloadLength
+//@   modifies r.connectionWindowSize, sentConn, outputBuffer.windowSize, outputBuffer.sentS, list.List.gfront, list.List.glen, list.Element.gnext, r.outputBuffers[*], r.flowMu.held, r.encoderMu.held, rlN, rlKind, rlSelf, rlID, rlHeaders, rlPromise
+//@   ensures[records-call] rlN == old(rlN) + 1 && rlKind == 5 && rlSelf == r && rlID == id && rlHeaders == headers && rlPromise == promiseID
+//@   ensures[lock-released] !r.flowMu.held && !r.encoderMu.held
+//@   at entry 0 before set rlN = rlN + 1
+//@   at entry 0 before set rlKind = 5
+//@   at entry 0 before set rlSelf = r
+//@   at entry 0 before set rlID = id
+//@   at entry 0 before set rlHeaders = headers
+//@   at entry 0 before set rlPromise = promiseID
+
+//@ func (*relay).priority
+//@   serves C08
+//@   requires relayReady(r)
+//@   modifies r.connectionWindowSize, sentConn, outputBuffer.windowSize, outputBuffer.sentS, list.List.gfront, list.List.glen, list.Element.gnext, r.outputBuffers[*], r.flowMu.held, rlN, rlKind, rlSelf, rlID, rlPrio
+//@   ensures[records-call] rlN == old(rlN) + 1 && rlKind == 3 && rlSelf == r && rlID == id && rlPrio == priority
+//@   ensures[lock-released] !r.flowMu.held
+//@   at entry 0 before set rlN = rlN + 1
+//@   at entry 0 before set rlKind = 3
+//@   at entry 0 before set rlSelf = r
+//@   at entry 0 before set rlID = id
+//@   at entry 0 before set rlPrio = priority
+
+//@ func (*relay).rstStream
+//@   serves C08
+//@   requires relayReady(r)
+//@   modifies r.connectionWindowSize, sentConn, outputBuffer.windowSize, outputBuffer.sentS, list.List.gfront, list.List.glen, list.Element.gnext, r.outputBuffers[*], r.flowMu.held, rlN, rlKind, rlSelf, rlID, rlCode
+//@   ensures[records-call] rlN == old(rlN) + 1 && rlKind == 4 && rlSelf == r && rlID == id && rlCode == errCode
+//@   ensures[lock-released] !r.flowMu.held
+//@   at entry 0 before set rlN = rlN + 1
+//@   at entry 0 before set rlKind = 4
+//@   at entry 0 before set rlSelf = r
+//@   at entry 0 before set rlID = id
+//@   at entry 0 before set rlCode = errCode
+
+// ---------------------------------------------------------------------------------------------
+// C08: re-framing of header blocks.
+
+//@ func splitIntoChunks
+//@   serves C08
+//@   safe index slice make
+//@   requires firstChunkMax >= 0 && continuationMax >= 1
+//@   ensures[at-least-one-chunk] len(result) >= 1
+//@   ensures[first-chunk-fits] len(result[0]) <= firstChunkMax
+//@   ensures[continuation-chunks-fit-and-are-not-empty] forall k int :: 1 <= k && k < len(result) ==> 1 <= len(result[k]) && len(result[k]) <= continuationMax
+//@   ensures[lengths-add-up] chunkTotal == len(data)
+//@   loop 0 invariant len(chunks) >= 1 && len(chunks[0]) <= firstChunkMax
+//@   loop 0 invariant forall k int :: 1 <= k && k < len(chunks) ==> 1 <= len(chunks[k]) && len(chunks[k]) <= continuationMax
+//@   loop 0 invariant chunkTotal + len(remaining) == len(data)
+//@   at call 0 of append after set chunkTotal = len(buf)
+//@   at call 1 of append after set chunkTotal = chunkTotal + len(buf)
+//@ ghost var chunkTotal int
+
+// RFC 7540 6.5.2: SETTINGS_MAX_FRAME_SIZE is between 2^14 and 2^24-1 (the property's premise: RFC-valid settings).
+//@ pred frameSizeOK(r *relay) = 16384 <= r.maxFrameSize && r.maxFrameSize <= 16777215
